@@ -393,15 +393,21 @@ fn one_case(ctx: &Ctx, case: u64, l: &mut Local) {
             }
             "disc-duplicated" => {
                 if !t.disclosures.is_empty() {
-                    let x = t.disclosures[r.usize(t.disclosures.len())].clone();
-                    t.disclosures.push(x);
+                    let i = r.usize(t.disclosures.len());
+                    let x = t.disclosures[i].clone();
+                    if r.chance(50) {
+                        // the copy right behind the original (consecutive repeats), else at the end
+                        t.disclosures.insert(i + 1, x);
+                    } else {
+                        t.disclosures.push(x);
+                    }
                 }
             }
             "disc-forged" => {
                 t.disclosures.push(b64e(json!(["s", *r.pick(&["iss", "cnf", "newclaim", "exp"]), "EVIL"]).to_string().as_bytes()));
             }
             "disc-garbage" => {
-                t.disclosures.push((*r.pick(&["!!!", "e30", "W10", "bnVsbA", "", "AAAA", "IiI"])).to_string());
+                t.disclosures.push((*r.pick(&["!!!", "e30", "W10", "bnVsbA", "", "AAAA", "IiI", "eyJhIjoxfQ", "eyJhbGciOiJub25lIn0", "NDI", "dHJ1ZQ"])).to_string());
             }
             "disc-repadded" => {
                 if !t.disclosures.is_empty() {
